@@ -183,8 +183,8 @@ fn arb_addr_kind() -> impl Strategy<Value = AddrKind> {
 fn arb_amount() -> impl Strategy<Value = Amount> {
     prop_oneof![
         3 => prop_oneof![Just(1u64), Just(1000), Just(5000), Just(5001), Just(10_000), Just(100_000)].prop_map(Amount::Tiny),
-        6 => (1u8..100).prop_map(Amount::Pct),
-        5 => prop_oneof![Just(0u64), Just(1), Just(4999), Just(5000), Just(9_999), Just(10_000), Just(10_001), Just(15_000), Just(20_000), Just(25_000), Just(40_000)]
+        9 => (1u8..100).prop_map(Amount::Pct),
+        4 => prop_oneof![Just(0u64), Just(5000), Just(9_999), Just(10_000), Just(10_001), Just(15_000), Just(20_000), Just(25_000), Just(40_000)]
             .prop_map(Amount::TotalMinus),
         1 => prop_oneof![Just(1u64), Just(10_000)].prop_map(Amount::TotalPlus),
         1 => Just(Amount::Far),
@@ -224,7 +224,7 @@ fn arb_propose() -> impl Strategy<Value = ProposeSpec> {
             2 => (1u8..8).prop_map(LockPol::PreferLocked),
         ],
         prop_oneof![6 => Just(7u8), 2 => Just(1u8), 2 => 1u8..8],
-        prop::option::weighted(0.6, (0u8..N_OWNERS, 0u8..11)),
+        prop::option::weighted(0.6, (0u8..N_OWNERS, prop_oneof![3 => 0u8..11, 1 => 11u8..40])),
     )
         .prop_map(|(kind, account, trusted, untrusted_extra, lock_pol, pools_mask, lock)| ProposeSpec { kind, account, trusted, untrusted_extra, lock_pol, pools_mask, lock })
 }
@@ -247,7 +247,7 @@ fn arb_c08_case(max_base_ops: usize, p_long: u32) -> impl Strategy<Value = C08Ca
         let iw = base.world.nu6_3_offset.is_some();
         let (na, nf) = (base.world.n_accounts, base.world.n_foreign);
         let busy = proptest::collection::vec(arb_tx(na, nf, iw, 4), 1..=3).prop_map(|txs| BlockSpec { txs });
-        (proptest::collection::vec(busy, 0..4), proptest::collection::vec(arb_xop(na, nf, iw), 5..14))
+        (proptest::collection::vec(busy, 0..4), proptest::collection::vec(arb_xop(na, nf, iw), 6..17))
             .prop_map(move |(seed_blocks, xops)| C08Case { base: base.clone(), seed_blocks, seed_advance, full_scan, xops })
     })
 }
@@ -297,7 +297,13 @@ struct Stats {
     anchor_deeper: u64,
     crossing_attempts: u64,
     probes: u64,
+    insuf_gaps: u64,
+    insuf_nothing_selectable: u64,
+    insuf_sendmax: u64,
+    insuf_amount_near_total: u64,
+    insuf_unexplained: u64,
     self_contradictions: u64,
+    have_ge_need: u64,
     selected_notes: u64,
     witnesses_checked: u64,
     err_insufficient: u64,
@@ -681,6 +687,8 @@ fn run_transfer(
 /// Signature of the known finding: input selection reports InsufficientFunds although the same wallet, asked for more
 /// under the same policies, reports enough available value.
 const SIG_SELF_CONTRADICTION: &str = "insufficient-funds-contradicts-own-available";
+/// Signature of the known finding: the InsufficientFunds error itself reports `available >= required`.
+const SIG_HAVE_GE_NEED: &str = "insufficient-funds-reports-available-at-least-required";
 
 #[allow(clippy::too_many_arguments)]
 fn do_propose(ctx: &Ctx, h: &mut Hist, m: &mut Model, st: &mut Stats, spec: &ProposeSpec, step: &str) -> Result<(), Fail> {
@@ -934,14 +942,40 @@ fn do_propose(ctx: &Ctx, h: &mut Hist, m: &mut Model, st: &mut Stats, spec: &Pro
         }
         Err(PErr::Insufficient { available, required }) => {
             st.err_insufficient += 1;
-            // Liveness is only flagged on overwhelming evidence (see the rule text in main()).
+            let requested: u64 = resolved.pays.iter().map(|x| x.1).sum();
+            if gaps_exist {
+                st.insuf_gaps += 1;
+            } else if basis == 0 {
+                st.insuf_nothing_selectable += 1;
+            } else if matches!(spec.kind, Kind::SendMax { .. }) {
+                st.insuf_sendmax += 1;
+            } else if requested.saturating_add(10_000 + MARGINAL_FEE * n_live as u64) > basis {
+                st.insuf_amount_near_total += 1;
+            } else {
+                st.insuf_unexplained += 1;
+                if std::env::var("VERIF_C08_DEBUG").is_ok() && available >= required {
+                    eprintln!(
+                        "[c08-debug] HAVE>=NEED {step}: available {available} required {required}; target {target}; notes {:?}",
+                        states.iter().map(|(n, s)| (h.chain.notes[*n].pool, h.chain.notes[*n].value, h.chain.notes[*n].height, h.chain.notes[*n].scope, h.chain.notes[*n].position, *s)).collect::<Vec<_>>()
+                    );
+                }
+                if std::env::var("VERIF_C08_DEBUG").is_ok() {
+                    eprintln!("[c08-debug] unexplained insufficient: requested {requested} basis {basis} available {available} required {required} kind {:?} pol {pol:?}", spec.kind);
+                }
+            }
             let everything_scanned = !gaps_exist;
-            if everything_scanned && dust_candidates == 0 && conservative >= required.saturating_add(100_000) && !matches!(spec.kind, Kind::SendMax { .. }) {
-                if !ctx.known_hit("insufficient-funds-despite-spendable") {
+            // set when this failure already exhibits one of the two known liveness findings
+            let mut explained_by_known = false;
+            // The error's own numbers: "insufficient" with available >= required contradicts itself.
+            if available >= required {
+                st.have_ge_need += 1;
+                explained_by_known = true;
+                if !ctx.known_hit(SIG_HAVE_GE_NEED) {
                     vfail!(
-                        "insufficient-funds-despite-spendable",
-                        "{step}: InsufficientFunds {{ available: {available}, required: {required} }} but account {account} holds {conservative} zatoshi in notes that are mined, unspent (no spender ever seen), unlocked, above 10000 zatoshi, in a permitted pool and have at least the untrusted confirmations ({untrusted}) at target {target}; everything is scanned; spec {spec:?}; notes {:?}",
-                        states.iter().map(|(n, s)| (h.chain.notes[*n].pool, h.chain.notes[*n].value, h.chain.notes[*n].height, h.chain.notes[*n].scope, *s)).collect::<Vec<_>>()
+                        SIG_HAVE_GE_NEED,
+                        "{step}: account {account}, target {target}: InsufficientFunds {{ available: {available}, required: {required} }} (have >= need); request {:?}; account notes (pool, value, height, scope, position, state): {:?}",
+                        resolved.pays.iter().map(|x| x.1).collect::<Vec<_>>(),
+                        states.iter().map(|(n, s)| (h.chain.notes[*n].pool, h.chain.notes[*n].value, h.chain.notes[*n].height, h.chain.notes[*n].scope, h.chain.notes[*n].position, *s)).collect::<Vec<_>>()
                     );
                 }
             }
@@ -956,6 +990,7 @@ fn do_propose(ctx: &Ctx, h: &mut Hist, m: &mut Model, st: &mut Stats, spec: &Pro
                     let margin = MARGINAL_FEE * (n_live as u64 + 8) + 50_000;
                     if avail2 >= required.saturating_add(margin) {
                         st.self_contradictions += 1;
+                        explained_by_known = true;
                         if !ctx.known_hit(SIG_SELF_CONTRADICTION) {
                             vfail!(
                                 SIG_SELF_CONTRADICTION,
@@ -966,6 +1001,16 @@ fn do_propose(ctx: &Ctx, h: &mut Hist, m: &mut Model, st: &mut Stats, spec: &Pro
                             );
                         }
                     }
+                }
+            }
+            // Liveness is only flagged on overwhelming evidence (see the rule text in main()).
+            if !explained_by_known && everything_scanned && dust_candidates == 0 && conservative >= required.saturating_add(100_000 + MARGINAL_FEE * (n_live as u64 + 8)) && !matches!(spec.kind, Kind::SendMax { .. }) {
+                if !ctx.known_hit("insufficient-funds-despite-spendable") {
+                    vfail!(
+                        "insufficient-funds-despite-spendable",
+                        "{step}: InsufficientFunds {{ available: {available}, required: {required} }} but account {account} holds {conservative} zatoshi in notes that are mined, unspent (no spender ever seen), unlocked, above 10000 zatoshi, in a permitted pool and have at least the untrusted confirmations ({untrusted}) at target {target}; everything is scanned; spec {spec:?}; notes {:?}",
+                        states.iter().map(|(n, s)| (h.chain.notes[*n].pool, h.chain.notes[*n].value, h.chain.notes[*n].height, h.chain.notes[*n].scope, *s)).collect::<Vec<_>>()
+                    );
                 }
             }
             if everything_scanned && documented >= required.saturating_add(50_000) {
@@ -1469,6 +1514,7 @@ fn run_case(ctx: &Ctx, case: &C08Case) -> CaseResult {
         .label_if(st.other_errors.iter().any(|e| e.contains("PaymentPoolsMismatch")), "err-payment-pools-mismatch(tex-payment-after-non-tex)")
         .label_if(st.insufficient_despite_documented > 0, "LIVENESS-insufficient-although-documented-spendable-covers")
         .label_if(st.self_contradictions > 0, "known:insufficient-funds-contradicts-own-available")
+        .label_if(st.have_ge_need > 0, "known:insufficient-funds-reports-available-at-least-required")
         .label_if(st.crossing_attempts > 0, "canonical-crossing-attempted")
         .label_if(st.strict_conf_latitude > 0, "selected-external-note-of-wallet-spending-tx-with-trusted-confs")
         .label_if(st.selected_dust > 0, "selected-dust-note")
@@ -1502,8 +1548,14 @@ fn run_case(ctx: &Ctx, case: &C08Case) -> CaseResult {
         .count("pending-txs-stored", st.executed_ok)
         .count("execute-errors", st.execute_err)
         .count("attempts-with-pending-spent-note", st.wallet_pending_candidate)
+        .count("insufficient:wallet-has-unscanned-gaps", st.insuf_gaps)
+        .count("insufficient:model-sees-nothing-selectable", st.insuf_nothing_selectable)
+        .count("insufficient:send-max", st.insuf_sendmax)
+        .count("insufficient:amount-within-fees-of-or-above-model-total", st.insuf_amount_near_total)
+        .count("insufficient:not-explained-by-model", st.insuf_unexplained)
         .count("insufficient-funds-probes", st.probes)
         .count("self-contradictions", st.self_contradictions)
+        .count("insufficient-with-available-at-least-required", st.have_ge_need)
         .count("canonical-crossing-attempts", st.crossing_attempts)
         .count("bucketed-policy-proposals", st.canonical_anchor))
 }
@@ -1535,18 +1587,46 @@ fn known_contradiction_case() -> C08Case {
     }
 }
 
+/// Recorded minimal input of the known finding `insufficient-funds-reports-available-at-least-required`: one account
+/// holding an Orchard note of 1_000_000 and a Sapling note of 30_000 (both deep enough); pay 990_000 to a P2PKH address.
+/// The Orchard note alone covers payment + the fee estimated without inputs (1_000_000) but not the fee with it
+/// (1_005_000); both pools together (1_030_000) cover payment + fee (1_015_000).
+fn known_have_ge_need_case() -> C08Case {
+    let recv = |pool: Pool, v: u64| BlockSpec { txs: vec![TxSpec { items: vec![ItemSpec::Recv { pool, who: Who::Wallet(0), scope: ScopeSel::External, value: v }] }] };
+    C08Case {
+        base: Case {
+            world: WorldSpec { seed: [11; 32], n_accounts: 1, n_foreign: 0, nu6_3_offset: None, retention_interval: None },
+            long: false,
+            ops: vec![Op::AddBlocks(vec![recv(Pool::Orchard, 1_000_000), recv(Pool::Sapling, 30_000)]), Op::AddEmpty(5)],
+            final_chunk: 10,
+        },
+        seed_blocks: vec![],
+        seed_advance: 0,
+        full_scan: Some(10),
+        xops: vec![XOp::Propose(ProposeSpec {
+            kind: Kind::Transfer { pays: vec![Pay { addr: AddrKind::P2pkh, rk: 0, amount: Amount::Tiny(990_000) }], change: ChangeSel::Single, fallback_orchard: false },
+            account: 0,
+            trusted: 1,
+            untrusted_extra: 0,
+            lock_pol: LockPol::Exclude,
+            pools_mask: 7,
+            lock: None,
+        })],
+    }
+}
+
 fn main() {
     chainsim::init_sqlite();
     let ctx = Ctx::from_args("C08", "exploration");
     ctx.set_rule(
         "proptest cases: a chainsim wallet history (world with 1-3 accounts, optional Ironwood activation and retention interval; blocks with \
          receipts/spends in 3 pools and all key scopes, scans in any order, tip updates, rewinds with/without reorg) + 0-3 busy blocks + 0-15 \
-         empty blocks, then (85 %) a full scan or (15 %) the gaps are left; then 5-13 C08 ops: Propose (propose_transfer with single/multi-output \
+         empty blocks, then (85 %) a full scan or (15 %) the gaps are left; then 6-16 C08 ops: Propose (propose_transfer with single/multi-output \
          change strategy and 1-3 payments to Sapling / unified (full, Orchard-only, Sapling-only, Sapling+P2PKH) / P2PKH / P2SH / TEX / own-account \
          addresses; propose_standard_transfer_to_address; propose_send_max_transfer in both MaxSpendMode values; a canonical ZIP 318 denomination to an \
          Orchard receiver; a Sapling-pool-only transfer; amounts tiny / a percentage / total-k for fee-sized k / total+k / far above, relative to the value the model considers \
          selectable; ConfirmationsPolicy trusted 1-10, untrusted = trusted+0..10; SpendPolicy pools subset; LockedInputPolicy Exclude / \
-         PreferUnlocked(owners) / PreferLocked(owners) over 3 owners; lock_inputs Some(owner, 0-10 blocks) in 60 %; the account is picked by rank \
+         PreferUnlocked(owners) / PreferLocked(owners) over 3 owners; lock_inputs Some(owner, 0-39 blocks) in 60 %; the account is picked by rank \
          of selectable value), Advance(1-12 or 30-45 empty blocks, scanned), Receive(a generated block, scanned), rewind / gap scan, unlock_proposal_inputs \
          of an earlier proposal under any owner, clear_locked_outputs, Execute (create_proposed_transactions with the mock Sapling provers for an earlier \
          single-step Sapling-only proposal: the transaction is STORED via store_transactions_to_be_sent and never mined, so its inputs are spent by a pending \
@@ -1559,7 +1639,7 @@ fn main() {
     ctx.assume("confirmations: a note needs mined_height + required <= target (= wallet chain tip + 1); required = trusted for internal-scope notes, untrusted otherwise (no transaction is ever marked trusted by the user). Latitude: an external-scope note of a transaction that also spends a wallet note is only required to have the trusted depth (counted separately)");
     ctx.assume("locks: an output is locked while lock_expiry_height >= target height; lock_inputs sets expiry = target + for_blocks for every selected input; unlock is owner-scoped; clear is per account (data_api::locking module docs)");
     ctx.assume("pending: a transaction stored by store_transactions_to_be_sent spends its inputs while its expiry height >= target height (expiry 0 = never expires); storing it releases the locks on its inputs (propose_transfer docs); the expiry is read back from the wallet's transactions table");
-    ctx.assume("liveness is NOT asserted from the model except on overwhelming evidence (all blocks scanned, no dust candidates, notes with untrusted depth, never locked, no spender ever seen cover `required` + 100000); the wallet's self-contradiction (InsufficientFunds, yet the same wallet asked for more reports `available` >= required + 5000*(notes+8) + 50000) is reported under a known-finding signature");
+    ctx.assume("liveness is NOT asserted from the model except on overwhelming evidence (all blocks scanned, no dust candidates, notes with untrusted depth, never locked, no spender ever seen cover `required` + 100000 + 5000*(notes+8)); the wallet's self-contradiction (InsufficientFunds, yet the same wallet asked for more reports `available` >= required + 5000*(notes+8) + 50000) is reported under a known-finding signature");
     ctx.assume("a history stops (counted as excluded-known) as soon as a reorganising rewind cuts an annotated frontier subtree (known shardtree finding listed under C06)");
     let tier = ctx.tier;
     // Regression: the recorded input of the known finding. While the defect exists the history reports the
@@ -1579,6 +1659,22 @@ fn main() {
             Ok(r)
         },
         |_| format!("{:?}", known_contradiction_case()),
+    );
+    ctx.run_enum(
+        "regression-known-have-ge-need",
+        1,
+        false,
+        |_| {
+            let r = run_case(&ctx, &known_have_ge_need_case())?;
+            vensure!(
+                r.labels.contains(&"proposal-ok") || r.labels.contains(&"known:insufficient-funds-reports-available-at-least-required"),
+                "regression-input-no-longer-exercises-selection",
+                "the recorded history neither produced a proposal nor the known finding: labels {:?}",
+                r.labels
+            );
+            Ok(r)
+        },
+        |_| format!("{:?}", known_have_ge_need_case()),
     );
     ctx.run_prop_with("proposals", || arb_c08_case(12, 6), tier.pick(360, 20_000), 60, |c| run_case(&ctx, c));
     ctx.require_label_fraction("proposals", "proposal-ok", 0.40);
